@@ -1471,7 +1471,11 @@ impl<'cmd> Parser<'cmd> {
             debug!("Parser::add_default_value: has conditional defaults");
             if !matcher.contains(arg.get_id()) {
                 for (id, val, default) in arg.default_vals_ifs.iter() {
-                    let add = if let Some(a) = matcher.get(id) {
+                    // An argument that only has its default value is not present
+                    let add = if let Some(a) = matcher
+                        .get(id)
+                        .filter(|a| a.check_explicit(&crate::builder::ArgPredicate::IsPresent))
+                    {
                         match val {
                             crate::builder::ArgPredicate::Equals(v) => {
                                 a.raw_vals_flatten().any(|value| v == value)
